@@ -374,3 +374,220 @@ func (e *Engine) replayTest(fn *ssa.Function, args []string) string {
 	sb.WriteString("}\n")
 	return sb.String()
 }
+
+// ---- bounded native search (a stand-in, never counted as proof) ----
+// fuzzTest renders a Go test that draws structured / random inputs, keeps those satisfying the natively compiled
+// requires, runs the real function and evaluates the native ensures clauses. It is used to look for a concrete
+// failing input when the solver gave none that replays, or when the changed code left the verifiable subset.
+
+func (e *Engine) genExpr(t types.Type, qual types.Qualifier, depth int) (string, bool) {
+	if depth > 4 {
+		return "", false
+	}
+	ts := types.TypeString(t, qual)
+	if w := bvWidth(t); w >= 0 {
+		if isFloat(t) {
+			return "", false
+		}
+		if w == 0 {
+			return "(r.Intn(2) == 0)", true
+		}
+		if isSigned(t) {
+			return fmt.Sprintf("%s(vcInt(r, %d))", ts, w), true
+		}
+		return fmt.Sprintf("%s(vcUint(r, %d))", ts, w), true
+	}
+	switch u := t.Underlying().(type) {
+	case *types.Slice:
+		if bvWidth(u.Elem()) == 8 && !isFloat(u.Elem()) {
+			return ts + "(vcBytes(r))", true
+		}
+		el, ok := e.genExpr(u.Elem(), qual, depth+1)
+		if !ok {
+			return "", false
+		}
+		return fmt.Sprintf("func() %s { n := r.Intn(4); s := make(%s, 0, n); for i := 0; i < n; i++ { s = append(s, %s) }; return s }()", ts, ts, el), true
+	case *types.Basic:
+		if isString(t) {
+			return ts + "(vcBytes(r))", true
+		}
+	case *types.Struct:
+		var fs []string
+		for i := 0; i < u.NumFields(); i++ {
+			x, ok := e.genExpr(u.Field(i).Type(), qual, depth+1)
+			if !ok {
+				return "", false
+			}
+			fs = append(fs, u.Field(i).Name()+": "+x)
+		}
+		return ts + "{" + strings.Join(fs, ", ") + "}", true
+	case *types.Pointer:
+		if _, ok := u.Elem().Underlying().(*types.Struct); ok {
+			x, ok := e.genExpr(u.Elem(), qual, depth+1)
+			if !ok {
+				return "", false
+			}
+			return "&" + x, true
+		}
+	}
+	return "", false
+}
+
+func (e *Engine) fuzzTest(fn *ssa.Function, sets map[string]uint64) string {
+	pkg := fn.Pkg.Pkg
+	qual := func(p *types.Package) string {
+		if p == pkg {
+			return ""
+		}
+		return p.Name()
+	}
+	var sb strings.Builder
+	sb.WriteString("//go:build verif\n\npackage " + pkg.Name() + "\n\nimport (\n\t\"fmt\"\n\t\"math/rand\"\n\t\"os\"\n\t\"strconv\"\n\t\"testing\"\n")
+	seen := map[string]bool{}
+	var walk func(t types.Type)
+	walk = func(t types.Type) {
+		switch u := t.(type) {
+		case *types.Named:
+			if p := u.Obj().Pkg(); p != nil && p != pkg && !seen[p.Path()] {
+				seen[p.Path()] = true
+				fmt.Fprintf(&sb, "\t%q\n", p.Path())
+			}
+			if st, ok := u.Underlying().(*types.Struct); ok && u.Obj().Pkg() == pkg {
+				for i := 0; i < st.NumFields(); i++ {
+					walk(st.Field(i).Type())
+				}
+			}
+		case *types.Pointer:
+			walk(u.Elem())
+		case *types.Slice:
+			walk(u.Elem())
+		}
+	}
+	for _, p := range fn.Params {
+		walk(p.Type())
+	}
+	sb.WriteString(")\n\n")
+	sb.WriteString(`func vcUint(r *rand.Rand, w int) uint64 {
+	m := uint64(1)<<uint(w) - 1
+	if w == 64 {
+		m = ^uint64(0)
+	}
+	switch r.Intn(8) {
+	case 0:
+		return uint64(r.Intn(4))
+	case 1:
+		return uint64(r.Intn(300)) & m
+	case 2:
+		return m - uint64(r.Intn(3))
+	case 3:
+		return (uint64(1)<<uint(w-1) + uint64(r.Intn(3)) - 1) & m
+	case 4:
+		return (uint64(1) << uint(r.Intn(w))) & m
+	}
+	return r.Uint64() & m
+}
+
+func vcInt(r *rand.Rand, w int) int64 {
+	if w == 64 && r.Intn(3) != 0 {
+		return int64(r.Intn(6)) // offsets and counts are small
+	}
+	v := vcUint(r, w)
+	sh := uint(64 - w)
+	return int64(v<<sh) >> sh
+}
+
+func vcBytes(r *rand.Rand) []byte {
+	n := r.Intn(48)
+	switch r.Intn(10) {
+	case 0:
+		n = 0
+	case 1:
+		n = 250 + r.Intn(80)
+	}
+	b := make([]byte, n)
+	switch r.Intn(7) {
+	case 0: // zeros
+	case 1:
+		for i := range b {
+			b[i] = 0xff
+		}
+	case 2, 3:
+		r.Read(b)
+	case 4:
+		if n > 0 {
+			b[r.Intn(n)] = []byte{0x80, 0x01, 0xff, 0x7f, 0x40}[r.Intn(5)]
+		}
+	case 5:
+		for i := range b {
+			b[i] = byte(r.Intn(4))
+		}
+	case 6:
+		r.Read(b)
+		for i := 0; i < n && i < 6; i++ {
+			if r.Intn(2) == 0 {
+				b[i] = []byte{0, 0x80, 0xff, 0x7f, 1}[r.Intn(5)]
+			}
+		}
+	}
+	if r.Intn(4) == 0 {
+		return b[:len(b):len(b)]
+	}
+	return b
+}
+
+`)
+	sb.WriteString("func TestVCFuzz(t *testing.T) {\n\tseed, _ := strconv.ParseInt(os.Getenv(\"VERIF_SEED\"), 10, 64)\n\tn, _ := strconv.Atoi(os.Getenv(\"VCFUZZ_N\"))\n\tif n == 0 {\n\t\tn = 200000\n\t}\n\tr := rand.New(rand.NewSource(seed + 1))\n\taccepted, shown := 0, map[string]int{}\n\tfor it := 0; it < n; it++ {\n")
+	var names []string
+	for i, p := range fn.Params {
+		var x string
+		if v, ok := sets[p.Name()]; ok {
+			if bvWidth(p.Type()) == 0 {
+				x = fmt.Sprint(v != 0)
+			} else {
+				x = fmt.Sprintf("%s(%d)", types.TypeString(p.Type(), qual), v)
+			}
+		} else {
+			g, ok := e.genExpr(p.Type(), qual, 0)
+			if !ok {
+				return ""
+			}
+			x = g
+		}
+		fmt.Fprintf(&sb, "\t\tvar a%d %s = %s\n", i, types.TypeString(p.Type(), qual), x)
+		names = append(names, fmt.Sprintf("a%d", i))
+	}
+	argList := strings.Join(names, ", ")
+	var fmtArgs []string
+	for range names {
+		fmtArgs = append(fmtArgs, "%#v")
+	}
+	report := func(what string) string {
+		return fmt.Sprintf("if shown[%q] < 2 {\n\t\t\t\t\tshown[%q]++\n\t\t\t\t\tfmt.Printf(\"VCFUZZ fail %s inputs: %s\\n\", %s)\n\t\t\t\t}", what, what, what, strings.Join(fmtArgs, " ; "), argList)
+	}
+	sb.WriteString("\t\tfunc() {\n\t\t\tok := false\n")
+	sb.WriteString("\t\t\tdefer func() {\n\t\t\t\tif x := recover(); x != nil && ok {\n\t\t\t\t\t" + report("panic") + "\n\t\t\t\t}\n\t\t\t}()\n")
+	if req := e.findContract(fn, "requires"); req != nil {
+		fmt.Fprintf(&sb, "\t\t\tif !%s(%s) {\n\t\t\t\treturn\n\t\t\t}\n", req.Name(), argList)
+	}
+	sb.WriteString("\t\t\tok = true\n\t\t\taccepted++\n")
+	nres := fn.Signature.Results().Len()
+	var rs []string
+	for k := 0; k < nres; k++ {
+		rs = append(rs, fmt.Sprintf("r%d", k))
+	}
+	call := fn.Name() + "(" + argList + ")"
+	if fn.Signature.Recv() != nil {
+		call = "a0." + fn.Name() + "(" + strings.Join(names[1:], ", ") + ")"
+	}
+	if nres > 0 {
+		fmt.Fprintf(&sb, "\t\t\t%s := %s\n", strings.Join(rs, ", "), call)
+	} else {
+		fmt.Fprintf(&sb, "\t\t\t%s\n", call)
+	}
+	all := strings.Join(append(append([]string{}, names...), rs...), ", ")
+	for _, c := range e.findContracts(fn, "ensures") {
+		fmt.Fprintf(&sb, "\t\t\tif !%s(%s) {\n\t\t\t\t%s\n\t\t\t}\n", c.Name(), all, report("ensures:"+e.clauseName(fn, c)))
+	}
+	sb.WriteString("\t\t}()\n\t}\n\tfmt.Println(\"VCFUZZ accepted\", accepted, \"of\", n)\n}\n")
+	return sb.String()
+}
